@@ -13,7 +13,14 @@ from crosshair.tracers import NoTracing
 
 
 class SymKeyDict(dict):
+    last = "unset"
+
     def _match(self, key):
+        r = self._match2(key)
+        self.last = r
+        return r
+
+    def _match2(self, key):
         with NoTracing():
             if not isinstance(key, SymbolicInt):
                 return key if dict.__contains__(self, key) else None
